@@ -43,7 +43,7 @@ row("C08", True, "E-INPUT",
 
 row("C09", True, "E-INPUT",
     EI + " x 10 string sites x 5 configurations; oracle: value identity through serialize→parse",
-    "Every string over an alphabet of quotes, backslash, controls, DEL, U+2028, form feed, NBSP, newlines, spaces and letters up to a length bound is placed at 10 sites (string value, 8 description sites, deprecation reason) of programmatically built schemas/documents, serialized under 5 configurations and re-parsed; the recovered value must be identical.",
+    "Every string over an alphabet of quotes, backslash, controls (U+0000, U+0008, U+001F), DEL, U+2028, form feed, NEL (a two-byte C1 control), newlines, tab, spaces and letters up to a length bound is placed at 10 sites (string value, 8 description sites, deprecation reason) of programmatically built schemas/documents, serialized under 5 configurations and re-parsed; the recovered value must be identical.",
     "Decoding on the way back is apollo's own (its spec agreement is C06). A boundary family covers the 70-character block-string threshold.")
 
 row("C10", True, "E-INPUT",
@@ -53,7 +53,7 @@ row("C10", True, "E-INPUT",
 
 row("C11", True, "E-INPUT",
     EI + " (separator / payload assignments with bounded deviations); oracle: reference line/column and name-span model",
-    "For each base document and each undefined-name variant, every assignment of separators (spaces, tabs, BOM, commas, comments, every line-terminator form, VT/FF/NEL/LS/PS, multi-byte and astral characters) to token gaps and of texts to string tokens with at most k non-default choice points is parsed as Schema / ExecutableDocument. Every Name's span must cover exactly its text, every node's span must start at its first token, line_column / line_column_range at every char-boundary offset must equal the reference (LineTerminator = LF, CRLF, CR; column = 1 + scalar values), and diagnostics' JSON positions must agree.",
+    "For each base document and each undefined-name variant, every assignment of separators (spaces, tabs, BOM, commas, comments, every line-terminator form, VT/FF/NEL/LS/PS, multi-byte and astral characters) to token gaps and of texts to string tokens with at most k non-default choice points is parsed as Schema / ExecutableDocument. Every Name's span must cover exactly its text, every node's span must start at its first token, line_column / line_column_range at every char-boundary offset must equal the reference (LineTerminator = LF, CRLF, CR; column = 1 + scalar values), the line/column *range* of every node and name must equal the reference at both ends, and diagnostics' JSON positions must agree. Standalone part: Type::parse and FieldSet::parse over cores x leading / inner / trailing separators (a name at byte offset 0 must still be located).",
     "Names synthesised by apollo (implicit schema definition) are skipped. Commas at four look-ahead positions that the parser does not skip are kept out (C05's findings).")
 
 row("C12", True, "E-HIST",
@@ -103,7 +103,7 @@ row("C20", True, "E-INPUT",
 
 row("C21", True, "E-INPUT",
     EI + " (parametric adversarial families around every internal limit, single-token edits), child processes; oracle: no panic, limit diagnostics present, diagnostics sorted",
-    "Eleven parametric families (nested selections, fragment chains and cycles, directive chains, input-object cycles, interface chains, deep values/types, wide documents, huge names…) at every size around each internal limit (32/100/128/500) plus every single-token edit of seed documents are run through parse → build → validate → serialize → introspect → execute pipelines under catch_unwind in watchdog-supervised children; no panic/abort/hang, a recursion-limit diagnostic when the limit is exceeded, DiagnosticList sorted by location (also for a schema built from two source files with interleaving diagnostics), Display/Debug/JSON rendering total.",
+    "Eleven parametric families (nested selections, fragment chains and cycles, directive chains, input-object cycles, interface chains, deep values/types, wide documents, huge names…) at every size around each internal limit (32/100/128/500) plus every single-token edit of seed documents and every seed document cut after each token and ended by a lone CR are run through parse → build → validate → serialize → introspect → execute pipelines under catch_unwind in watchdog-supervised children; no panic/abort/hang, a recursion-limit diagnostic when the limit is exceeded, DiagnosticList sorted by location (also for a schema built from two source files with interleaving diagnostics), Display/Debug/JSON rendering total.",
     "Limit diagnostics demanded only for acyclic chains longer than the code's constant for that family.")
 
 row("C22", True, "E-CHOICE",
@@ -133,7 +133,7 @@ row("C26", True, "E-INPUT",
 
 row("C27", True, "E-CHOICE",
     "stateless exhaustive enumeration of every poll-readiness / wake-timing schedule of the real async executor under a controlled single-task executor; oracle: sync response + call log",
-    "For every request within the bound, every assignment of {ready, pending + immediate wake, pending + deferred wake} to every poll of every resolver future and list-stream item (bounded pendings per future) drives the real execute_async to completion under a harness executor that polls only after a wake; the response must equal execute_sync's, every resolver is called at most once, a mutation root field starts only after the previous one completed, and a never-woken pending poll must be reported as a lost wake-up (no busy polling). Lists of 127..300 items at every list position are explored by deviation bound (all-ready and every single non-default answer).",
+    "For every request within the bound, every assignment of {ready, pending + immediate wake, pending + deferred wake} to every poll of every resolver future and list-stream item (bounded pendings per future) drives the real execute_async to completion under a harness executor that polls only after a wake; the response must equal execute_sync's, every resolver is called at most once, a mutation root field starts only after the previous one completed, and a never-woken pending poll must be reported as a lost wake-up (no busy polling). The order of resolver calls AND of list-item production must equal the synchronous run's. Lists of 127..300 items at every list position, and requests with more choice points than the bound, are explored by deviation bound (every schedule with at most 1 | 2 non-default answers).",
     "Executor model: one task, no spurious polls.")
 
 row("C28", True, "E-INPUT",
